@@ -47,8 +47,12 @@ def template(B, kind):
     if kind == 'ties_filter':
         return B.Strategy('tpl', [A.RunDaily(), A.SelectAll(), A.SetStat('rating'), A.SelectN(2, filter_selected=True), A.WeighEqually(), A.Rebalance()])
     if kind == 'active':
-        return B.Strategy('tpl', [A.ClosePositionsAfterDates('cd'), A.RunDaily(), A.SelectAll(), A.SelectActive(), A.SetStat('rating'), A.SelectN(1), A.WeighEqually(),
-                                  A.Rebalance()], [C.Security('a'), C.Security('b'), C.Security('c')])
+        # filter_selected: the closed name must not be picked again from the full statistic row (it would be re-bought on the close date itself)
+        return B.Strategy('tpl', [A.ClosePositionsAfterDates('cd'), A.RunDaily(), A.SelectAll(), A.SelectActive(), A.SetStat('rating'), A.SelectN(1, filter_selected=True),
+                                  A.WeighEqually(), A.Rebalance()], [C.Security('a'), C.Security('b'), C.Security('c')])
+    if kind == 'risk':
+        # a risk measure whose table has no column for one of the securities
+        return B.Strategy('tpl', [A.RunDaily(), A.SelectAll(), A.WeighEqually(), A.Rebalance(), A.UpdateRisk('r1', history=1)], ['a', 'b', 'c'])
     if kind == 'active_random':
         return B.Strategy('tpl', [A.ClosePositionsAfterDates('cd'), A.RunDaily(), A.SelectAll(), A.SelectActive(), A.SelectRandomly(1), A.WeighEqually(), A.Rebalance()],
                           [C.Security('a'), C.Security('b'), C.Security('c')])
@@ -96,6 +100,17 @@ def cells(df):
         # symbolic cells by identity (terms are immutable objects), everything else by value
         return ('sym', id(v)) if type(v).__module__.startswith('symbt') else v
     return [(i, c, key(df[c][i])) for i in df.index for c in df.columns]
+
+
+def flat_add(add, prefix=''):
+    """(key, frame) for every frame in an additional_data dict, one level of nesting (unit_risk is a dict of frames)"""
+    out = []
+    for k, v in add.items():
+        if isinstance(v, dict):
+            out += [(prefix + k + '/' + k2, v2) for k2, v2 in v.items()]
+        else:
+            out.append((prefix + k, v))
+    return out
 
 
 def same_cells(a, b):
@@ -178,6 +193,8 @@ def mkdata(run, cfg, tag):
     if cfg['kind'] in ('active', 'active_random'):
         add['cd'] = pd.DataFrame({'date': [dts[1]]}, index=['c'])
         add['rating'] = frame(run, dts, ['a', 'b', 'c'], lambda i, c: {'a': 2.0, 'b': 2.0, 'c': 3.0}[c])
+    if cfg['kind'] == 'risk':
+        add['unit_risk'] = {'r1': frame(run, dts, ['a', 'b'], lambda i, c: {'a': 1.5, 'b': -0.5}[c] + 0.25 * i)}
     if cfg['kind'].startswith('ties'):
         add['rating'] = frame(run, dts, ['a', 'b', 'c'], lambda i, c: {'a': 2.0, 'b': 2.0, 'c': 1.0 + (i % 2)}[c])      # exact ties between a and b
     return dts, data, add
@@ -193,7 +210,8 @@ def h_isolation(run, cfg):
     dA, dataA, addA = mkdata(run, cfg, 'A')
     dB, dataB, addB = mkdata(run, cfg, 'B')
     cA0, cB0 = cells(dataA), cells(dataB)
-    addcells0 = {k: cells(v) for k, v in list(addA.items()) + [('B' + k, v) for k, v in addB.items()]}
+    addcells0 = {k: cells(v) for k, v in flat_add(addA) + flat_add(addB, 'B')}
+    addcols0 = {k: list(v.columns) for k, v in flat_add(addA) + flat_add(addB, 'B')}
     addkeysA = sorted(addA)
     capA = float(cfg['cap']) if cfg.get('cap') else run.real('capA', 10 ** 4, 10 ** 7)
     capB = float(cfg['cap']) * 2 if cfg.get('cap') else run.real('capB', 10 ** 4, 10 ** 7)
@@ -231,8 +249,8 @@ def h_isolation(run, cfg):
         run.check(after_tpl == before_tpl, 'template-not-mutated', _diff(before_tpl, after_tpl))
         run.check(same_cells(cells(dataA), cA0) and same_cells(cells(dataB), cB0), 'input-data-not-mutated')
         run.check(sorted(addA) == addkeysA, 'additional-data-dict-not-mutated')
-        for k, v in list(addA.items()) + [('B' + k, v) for k, v in addB.items()]:
-            run.check(same_cells(cells(v), addcells0[k]), 'additional-data-frames-not-mutated', k)
+        for k, v in flat_add(addA) + flat_add(addB, 'B'):
+            run.check(list(v.columns) == addcols0[k] and same_cells(cells(v), addcells0[k]), 'additional-data-frames-not-mutated', '%s columns %s' % (k, list(v.columns)))
         run.check(list(dataA.columns) == ['a', 'b', 'c'] and len(dataA.index) == 4, 'input-data-shape-kept')
         # run() again does not re-run
         hB = history(tB)
@@ -406,7 +424,7 @@ def plan(tier):
     quick = tier == 'quick'
     opts = dict(max_paths=3000, timeout_ms=10000)
     tasks = []
-    for kind in ('stateful', 'nested', 'ties', 'random'):
+    for kind in ('stateful', 'nested', 'ties', 'random', 'risk'):
         tasks.append(dict(harness='isolation', cfg=dict(kind=kind, symlast=0), opts=opts))
         if not quick:
             tasks.append(dict(harness='isolation', cfg=dict(kind=kind, symlast=0, fee=1, int=1, cap=123456.0), opts=opts))
